@@ -434,6 +434,127 @@ def gen_chart(rng, tier, small=False):
     return dict(meta=meta, bpms=bpms, svs=svs, hits=hits, holds=holds)
 
 
+
+# ---- sessions: one chart object, written several times with edits in between
+
+LISTS = ["hits", "holds", "bpms", "svs", "samples"]
+EDIT_KINDS = ["col_add", "col_column", "col_scale", "col_volume", "stack_add", "stack_loc", "df_iloc", "df_loc", "df_replace",
+              "list_sorted", "list_after", "list_append", "meta"]
+LOOK_KINDS = ["iter", "write_discard", "getitem", "stack", "records"]
+SESSION_D = [1000.25, -777.5, 0.5, 11.0, 250.0, -0.75, 3.0]
+
+
+def gen_edit(rng, k):
+    kind = rng.choice(EDIT_KINDS)
+    e = dict(op="edit", kind=kind, lst=rng.choice(LISTS), d=rng.choice(SESSION_D), i=rng.randint(0, 50))
+    if kind in ("col_column",):
+        e["lst"] = rng.choice(["hits", "holds"])
+    if kind == "col_scale":
+        e["lst"] = rng.choice(["holds", "bpms", "svs"])
+    if kind == "col_volume":
+        e["lst"] = rng.choice(["hits", "holds", "bpms", "svs", "samples"])
+    if kind in ("list_after",):
+        e["lst"] = rng.choice(["hits", "holds", "bpms", "svs"])
+        e["t"] = rng.choice([-10000.0, 0.0, 1000.0, 50000.0])
+    if kind == "stack_loc":
+        e["t"] = rng.choice([0.0, 1000.0, 50000.0])
+    if kind == "meta":
+        e["key"] = rng.choice(["title_unicode", "version", "creator", "preview_time", "tags", "beatmap_id", "hp_drain_rate"])
+        e["val"] = {"title_unicode": rng.choice(WORDS), "version": rng.choice(WORDS), "creator": rng.choice(WORDS),
+                    "preview_time": rng.choice([-1, 500, 12.5]), "tags": [rng.choice(TAGWORDS) for _ in range(rng.randint(0, 3))],
+                    "beatmap_id": rng.choice([0, 7, 2062527]), "hp_drain_rate": rng.choice([2.0, 7.5, 0.125])}[e["key"]]
+    return e
+
+
+def gen_session(rng, k):
+    """2-4 writes (write() / write_file()) of ONE chart object; between them edits through every public editing route and
+    plain looks (iteration, indexing, stack) that may leave state behind"""
+    steps = []
+    if rng.random() < 0.3:
+        steps.append(dict(op="look", kind=rng.choice(LOOK_KINDS)))
+    if rng.random() < 0.3:
+        steps.append(gen_edit(rng, k))
+    nw = rng.choice([2, 2, 3, 4])
+    for w in range(nw):
+        steps.append(dict(op="write", via=rng.choice(["lines", "file"])))
+        if w == nw - 1:
+            break
+        if rng.random() < 0.25:
+            steps.append(dict(op="look", kind=rng.choice(LOOK_KINDS)))
+        for _ in range(rng.choice([1, 1, 2, 3])):
+            steps.append(gen_edit(rng, k))
+        if rng.random() < 0.25:
+            steps.append(dict(op="look", kind=rng.choice(LOOK_KINDS)))
+    return steps
+
+
+def apply_look(m, kind):
+    if kind == "iter":
+        for lst in LISTS:
+            for _ in getattr(m, lst):
+                pass
+    elif kind == "write_discard":
+        m.write()
+    elif kind == "getitem":
+        for lst in LISTS:
+            tl = getattr(m, lst)
+            if len(tl):
+                tl[0]
+                tl[0:1]
+    elif kind == "stack":
+        m.stack()
+    elif kind == "records":
+        extract(m)
+
+
+def apply_edit(m, e, k):
+    """one edit of the chart through the public API; every edit keeps the chart inside the property's domain (columns inside
+    the key count, non-zero bpm / SV, lengths >= 0)"""
+    kind, d = e["kind"], float(e["d"])
+    tl = getattr(m, e["lst"])
+    n = len(tl)
+    if kind == "col_add":
+        tl.offset += d
+    elif kind == "col_column":
+        tl.column = (tl.column + 1) % k
+    elif kind == "col_scale":
+        if e["lst"] == "holds":
+            tl.length *= 2
+        elif e["lst"] == "bpms":
+            tl.bpm = tl.bpm * 2
+        else:
+            tl.multiplier /= 4
+    elif kind == "col_volume":
+        tl.volume = (tl.volume + 10) % 101
+    elif kind == "stack_add":
+        st = m.stack()
+        st.offset += d
+    elif kind == "stack_loc":
+        st = m.stack()
+        st.loc[st.offset > float(e["t"]), "offset"] += d
+    elif kind == "df_iloc":
+        if n:
+            df = tl.df
+            df.iloc[e["i"] % n, df.columns.get_loc("offset")] = float(df["offset"].iloc[e["i"] % n]) + d
+    elif kind == "df_loc":
+        if n:
+            df = tl.df
+            df.loc[df["offset"] >= df["offset"].median(), "offset"] += d
+    elif kind == "df_replace":
+        df = tl.df.copy()
+        df["offset"] = df["offset"] + d
+        tl.df = df
+    elif kind == "list_sorted":
+        setattr(m, e["lst"], tl.sorted(reverse=bool(e["i"] % 2)))
+    elif kind == "list_after":
+        setattr(m, e["lst"], tl.after(float(e["t"]), include_end=True))
+    elif kind == "list_append":
+        if n:
+            setattr(m, e["lst"], tl.append(tl[0:1]))
+    elif kind == "meta":
+        setattr(m, e["key"], list(e["val"]) if e["key"] == "tags" else e["val"])
+
+
 def gen(rng, tier, i):
     if i < 18:
         # exhaustive sub-claim, both tiers: every x of the playfield and every column for K = i + 1
@@ -451,8 +572,11 @@ def gen(rng, tier, i):
         return dict(claim="read", via=via, lines=gen_text(rng, tier))
     if r < 0.60:
         return gen_bad_text(rng, tier)
-    if r < 0.85:
+    if r < 0.80:
         return dict(claim="write", via=via, history=gen_history(rng), chart=gen_chart(rng, tier))
+    if r < 0.89:
+        ch = gen_chart(rng, tier, small=True)
+        return dict(claim="session", history=gen_history(rng), chart=ch, steps=gen_session(rng, int(ch["meta"]["circle_size"])))
     return dict(claim="cycle", via=via, history=gen_history(rng), chart=gen_chart(rng, tier, small=True))
 
 
@@ -527,6 +651,17 @@ def corpus():
                              hitsound_file="x", length=l)
     m2 = dict(META_DEFAULT); m2["circle_size"] = 14.0
     c.append(dict(claim="write", chart=dict(meta=m2, bpms=[], svs=[], hits=[], holds=[hold(0.6, 0.0), hold(0.5, 1.0)])))
+    # sessions on one chart object: write, edit every list in place through its column properties, write again — the
+    # second text must be the chart as it is then (a row cache kept by an earlier iteration would show the old one)
+    E = lambda kind, lst, d=1000.25, **kw: dict(op="edit", kind=kind, lst=lst, d=d, i=1, **kw)
+    W = lambda via="lines": dict(op="write", via=via)
+    c.append(dict(claim="session", chart=chart, steps=[W(), E("col_add", "hits"), E("col_column", "hits"), E("col_add", "holds", -777.5),
+                                                       E("col_scale", "holds"), E("col_scale", "bpms"), E("col_scale", "svs"),
+                                                       E("col_add", "svs", 11.0), E("col_add", "samples", 3.0), W()]))
+    c.append(dict(claim="session", chart=chart, steps=[dict(op="look", kind="iter"), E("stack_add", "hits", 250.0), W("file"),
+                                                       E("df_loc", "hits"), E("df_iloc", "holds"), W("file"),
+                                                       E("df_replace", "bpms", 0.5), E("list_sorted", "hits"), E("meta", "hits", key="version", val="v2"),
+                                                       W()]))
     return c
 
 
@@ -553,7 +688,51 @@ def valid(case):
             if not (isinstance(case["lines"], list) and all(isinstance(l, str) for l in case["lines"]) and _text_ok(case["lines"])):
                 return False
             return cl == "badtext" or dialect_ok(case["lines"])
-        if cl in ("write", "cycle"):
+        if cl == "session":
+            if not (isinstance(case["steps"], list) and 1 <= len(case["steps"]) <= 40):
+                return False
+            for st in case["steps"]:
+                if st.get("op") == "write":
+                    if st.get("via") not in ("lines", "file"):
+                        return False
+                elif st.get("op") == "look":
+                    if st.get("kind") not in LOOK_KINDS:
+                        return False
+                elif st.get("op") == "edit":
+                    if st.get("kind") not in EDIT_KINDS or st.get("lst") not in LISTS or not _isnum(st.get("d")) \
+                            or not (isinstance(st.get("i"), int) and 0 <= st["i"] <= 1000):
+                        return False
+                    if st["kind"] == "col_column" and st["lst"] not in ("hits", "holds"):
+                        return False
+                    if st["kind"] == "col_scale" and st["lst"] not in ("holds", "bpms", "svs"):
+                        return False
+                    if st["kind"] == "list_after" and (st["lst"] == "samples" or not _isnum(st.get("t"))):
+                        return False
+                    if st["kind"] == "stack_loc" and not _isnum(st.get("t")):
+                        return False
+                    if abs(st["d"]) > 1e6:
+                        return False
+                    if st["kind"] == "meta":
+                        key, val = st.get("key"), st.get("val")
+                        if key in ("title_unicode", "version", "creator"):
+                            if not _str_ok(val):
+                                return False
+                        elif key == "preview_time" or key == "hp_drain_rate":
+                            if not _isnum(val):
+                                return False
+                        elif key == "beatmap_id":
+                            if not (isinstance(val, int) and not isinstance(val, bool)):
+                                return False
+                        elif key == "tags":
+                            if not (isinstance(val, list) and all(_str_ok(t) and t and " " not in t for t in val)):
+                                return False
+                        else:
+                            return False
+                else:
+                    return False
+            if not any(st.get("op") == "write" for st in case["steps"]):
+                return False
+        if cl in ("write", "cycle", "session"):
             for o in case.get("history", []):
                 if o.get("op") not in HISTORY_OPS:
                     return False
@@ -1017,7 +1196,7 @@ def g_lossy(meta):
 # ------------------------------------------------------------------------------------------ run
 
 def run(case, drv):
-    return dict(col=run_col, coltable=run_coltable, line=run_line, read=run_read, badtext=run_badtext, write=run_write, cycle=run_cycle)[
+    return dict(col=run_col, coltable=run_coltable, line=run_line, read=run_read, badtext=run_badtext, write=run_write, cycle=run_cycle, session=run_session)[
         case["claim"]](case, drv)
 
 
@@ -1345,6 +1524,106 @@ def run_write(case, drv, cycle=False):
         res["_text"] = impl_text
         res["_back"] = back
     return res
+
+
+
+def _judge_written(drv, ch, impl_text, via):
+    """the judgement of ONE written text against the chart content `ch` it was written from (the same three oracles as
+    `run_write`): (C) the text equals the model's text character by character; (S) the text is well formed and the Lean
+    `denote` of it equals the Lean `quantize` of `ch`, the implementation reads it back as `quantize ch`, and every note
+    has a counterpart less than 1 ms away"""
+    c_w, c_s, c_r = Cmp(), Cmp(), Cmp()
+    wire, boundary = _wire_with_boundary(ch, uni=False)
+    model_text = "\n".join(render(drv.call("c01.write", chart=wire)["ok"], ch))
+    agree = impl_text == model_text
+    if not agree:
+        il, ml = impl_text.split("\n"), model_text.split("\n")
+        for a, b in zip(il, ml):
+            if a != b:
+                c_w.why.append(f"line impl {a!r} vs model {b!r}")
+                break
+        if len(il) != len(ml):
+            c_w.why.append(f"{len(il)} lines vs {len(ml)}")
+    file_lines = drv.call("c01.file_lines", text=impl_text)["ok"] if via == "file" else impl_text.split("\n")
+    wire_u, _ = _wire_with_boundary(ch, uni=True)
+    q = drv.call("c01.quantize", chart=wire_u)["ok"]
+    sp = drv.call("c01.denote", lines=file_lines)
+    wf = drv.call("c01.wf", lines=file_lines)["ok"]
+    ok = True
+    if "ok" not in sp or not (wf["timing"] and wf["objects"]):
+        ok = False
+        c_s.why.append(f"written text is not well formed / not denotable: {sp.get('err')} {wf}")
+    else:
+        ok &= cmp_lean_charts(c_s, sp["ok"], q, "denote(write) vs quantize(current chart)")
+    back = _impl_read_text(impl_text) if via == "file" else _impl_read(file_lines)
+    if back[0] == "err":
+        ok = False
+        c_r.why.append(f"reading the written text raises {back[1]}")
+    else:
+        ok &= cmp_chart_q(c_r, back[1], q, "read(write) vs quantize(current chart)")
+    if ok and back[0] == "ok":
+        ok &= moved_less_than_1ms(c_r, ch, back[1])
+    return dict(ok=ok, agree=agree, boundary=boundary, maxdev=max(c_s.maxdev, c_r.maxdev),
+                why=dict(why_write=c_w.why[:4], why_spec=c_s.why[:6], why_read=c_r.why[:6]))
+
+
+def run_session(case, drv):
+    """WHAT IS WRITTEN DEPENDS ON THE CHART'S CURRENT CONTENT, NOT ON WHAT AN EARLIER CALL SAW: one chart object is written
+    2-4 times (write() / write_file()), edited in between through every public editing route (list-property columns in
+    place, Stacker, df.loc / df.iloc, a replaced df, replaced lists, metadata attributes) and looked at (iteration, indexing);
+    every written text is judged against the content the object has at that moment, read through the plain column API
+    (`tl.df.to_dict`, never through iteration)."""
+    ch0 = case["chart"]
+    hist = case.get("history", [])
+    tags, writes = [], 0
+    ok = agree = True
+    boundary = False
+    maxdev = 0.0
+    detail = {}
+    d44 = False
+    try:
+        m = build_map(ch0)
+        if hist:
+            m, done = apply_history(m, hist)
+            if _chart_ok(normalise(extract(m))):
+                tags += ["h-" + o for o in done]
+            else:
+                m = build_map(ch0)
+                tags.append("history-dropped")
+        k = int(m.circle_size)
+        edits_since_write = 0
+        for ix, st in enumerate(case["steps"]):
+            if st["op"] == "look":
+                apply_look(m, st["kind"])
+                tags.append("look-" + st["kind"])
+            elif st["op"] == "edit":
+                apply_edit(m, st, k)
+                edits_since_write += 1
+                tags.append("e-" + st["kind"])
+            else:
+                cur = normalise(extract(m))
+                if not _chart_ok(cur):
+                    # cannot happen with the edits above (they keep the domain); a guard, not a filter
+                    return dict(claim="session", ok=True, agree=True, dom=False, tags=tags + ["left-domain"], nontrivial=False)
+                d44 = d44 or D44(cur["meta"])
+                text = _impl_write_text(m, st["via"])
+                j = _judge_written(drv, cur, text, st["via"])
+                writes += 1
+                if writes > 1 and edits_since_write:
+                    tags.append("write-after-edit")
+                edits_since_write = 0
+                boundary = boundary or j["boundary"]
+                maxdev = max(maxdev, j["maxdev"])
+                if not (j["ok"] and j["agree"]):
+                    ok, agree = ok and j["ok"], agree and j["agree"]
+                    detail = dict(step=ix, write_no=writes, **j["why"])
+                    break
+    except Exception as e:
+        return dict(claim="session", ok=False, agree=False, dom=True, tags=tags + ["session-raises", err_class(e)], nontrivial=True,
+                    detail=dict(err=f"{type(e).__name__}: {e}"))
+    kf = "D44" if (not ok and d44) else None
+    return dict(claim="session", ok=ok, agree=agree, dom=not d44, kf=kf, tags=sorted(set(tags)) + ["writes%d" % writes],
+                nontrivial=writes > 1, boundary=boundary, maxdev=maxdev, detail=detail)
 
 
 def cmp_lean_charts(c, a, b, what):
